@@ -246,4 +246,78 @@ CHECKS = {
          'real parser returns (PLY/astutils outside the model); conj by '
          'meaning; translate(debug=True), map_translate not modelled; '
          'formulas are a sample (sequences exhaustive). No axioms.')),
+ 'C06': dict(
+   design_ref='§6 C06',
+   technique='Coq proof over hand-written models of the bit-blaster (circuits for all widths, emitters with memory buffers, translator), generated operator tables (tie G), vm_compute truth-table correspondence exhaustive on the operator sweep, token-level comparison of emitted circuits',
+   text=('Proved for all widths and bit values: ripple-carry adder/subtractor '
+         '(exact with extension, modular without), comparators, sign '
+         'extension, ite, negate_if, abs, shift-add multiplier, restoring '
+         'divider (Z.quot/Z.rem when the divisor is non-zero) - all fully '
+         'proved; the emitted prefix formulas with ?i memory registers '
+         'evaluate to the circuits for all widths and start addresses; the '
+         'translator theorem: for every expression of the documented '
+         'first-order grammar (connectives, comparators, + - * / %, \\in, '
+         'ite at both levels, LET, registered definitions, primes, '
+         'quantifiers over exactly the representable values) compile = '
+         'integer semantics unless a divisor is zero; acceptance is static '
+         '(32-bit guard). Operator tables regenerated from bitvector.py and '
+         'doc.md and proved to cover the documented grammar. Truth tables of '
+         'the real Context.add_expr on both back ends compared in Coq: '
+         'exhaustive sweep of 19 operator cases x all ordered pairs of hint '
+         'shapes x widths, plus random formulas and a rejection stream.'),
+   note=('Trusted: Coq kernel+vm_compute; symbolic/bdd.py prefix evaluator, '
+         'dd, and the buffer threading inside Nodes.*.flatten (covered by the '
+         'truth-table correspondence only); \\S, @, <<>>, strings, temporal '
+         'operators and variable-shadowing definitions outside the model; '
+         'model describes the F1/F6/F11-repaired code; one known finding '
+         '(F14, definitions containing quantifiers are unusable). No axioms.')),
+ 'C08': dict(
+   design_ref='§6 C08',
+   technique='Coq proof over a model of the DNF printer + verified checker evaluated by vm_compute on the real output parsed by the real parser',
+   text=('Proved for all inputs of the model: for any cover of f by '
+         'implicants and every combination of show_dom/show_limits/marker '
+         'line the printed formula equals f at every care point; clipping '
+         'preserves the denotation inside care; no disjunct holds at a care '
+         'point outside f and together they contain f; disjuncts non-empty. '
+         'The text of the real to_expr/dumps_cover is parsed by the real '
+         'parser (marker line read as TRUE), checked in Coq by the verified '
+         'printed_ok and compared with the model printer applied to the real '
+         'cover; _clip_subrange compared exhaustively on -3..3. printed_reparses '
+         'is established per run with the real parser, not proved.'),
+   note=('Trusted: Coq kernel+vm_compute; text layout; conversion of the '
+         'parser tree to a Gallina literal; dd by meaning; inputs with f not '
+         'implying care and show_dom are rejected by the library own assertion '
+         'and counted as rejected. No axioms.')),
+ 'C09': dict(
+   design_ref='§6 C09',
+   technique='Coq proof: verified sound-and-complete checker of "minimum cover by maximal boxes" evaluated by vm_compute on the real cover; model of cover.py sound for all inputs and picks; minimality proved on the property own finite domains',
+   text=('Unbounded: the checker is_min_prime_cover_b is sound and complete '
+         'for the property statement on every finite instance; the reference '
+         'returns a minimum cover; the model of cover.minimize (any pick) '
+         'returns primes that cover f; independent-set lower bound and greedy '
+         'upper bound are valid; the literal quantified _floor/_contains_covered '
+         'formulas equal joins/meets. Bounded (vm_compute, the property own '
+         'quantifier): minimality of the model on all 2^8 x 2^8 (f, care) over '
+         'three two-valued variables, all 2^16 four-variable functions with '
+         'care=TRUE, all subsets of the 3x3 grid. Unbounded minimality of the '
+         'model (C09_full) is stated, not proved. Every real cover is '
+         'validated by the verified checker in Coq; cyclic_core compared '
+         'exactly with the model.'),
+   note=('Trusted: Coq kernel+vm_compute; hand model tied by cyclic_core '
+         'equality and the checker; dd by meaning; model describes the '
+         'F13-repaired code. No axioms.')),
+ 'C10': dict(
+   design_ref='§6 C10',
+   technique='Coq proof: verified reference and checker of "exactly all minimum covers by primes" evaluated by vm_compute on the real result; model of cover_enum.py sound for all inputs; exactness on the property own finite domains',
+   text=('Unbounded: the reference all_min_covers_ref returns exactly the '
+         'set of minimum covers by primes and the checker characterises it '
+         '(same size, non-empty, contains every minimum cover, unique); the '
+         'model of the repaired cover_enum is sound for all picks. Bounded: '
+         'the model equals the reference on all non-empty f x all care over '
+         'three variables and on all 65535 non-empty four-variable functions. '
+         'The unrepaired code is refuted (F2 witness) as a regression. The '
+         'real returned set of covers is compared exactly with the verified '
+         'reference in Coq; membership of the cover.minimize cover checked.'),
+   note=('Trusted: as C09; model describes the F2-repaired code; C10_full '
+         '(unbounded exactness of the model) stated, not proved. No axioms.')),
 }
